@@ -102,3 +102,8 @@ Example nonvacuous_init_fixed :
   samples_from_model true 2 2 [(0, Ok (Some 10)); (1, @Ok (option nat) nat (Some 20))] [[F 1; P; P; F 0]]
   = IOk [(0, 10); (1, 20)].
 Proof. vm_compute. reflexivity. Qed.
+
+(* the hypothesis of the termination theorem: schedules after which every job has been evaluated exist *)
+Example nonvacuous_every_job_evaluated :
+  concat (pend (fst (run [F 1; P; F 0] (start (enum [@Ok nat nat 1; Ok 2]) (fresh 2))))) = [].
+Proof. vm_compute. reflexivity. Qed.
